@@ -208,8 +208,35 @@ void check_one(World& w, const Task& t, const std::vector<int>& choice, const Im
             }
         for (auto& e : b.exact)
             if (f1[e.first] != e.second) { ok = false; viol("field_not_preserved:" + e.first, e.first + " reads back as " + trunc(f1[e.first], 120) + ", expected " + trunc(e.second, 120)); }
-        // untouched fields of the base must read back exactly as the base alone reads back on this schema (differential: no hand-written expectation)
-        // -> done by comparing with the stored read-back of the pure base, computed once per task (facts in a.counters would be heavy): see `base_readback`
+        // every field that was NOT deviated holds an ordinary value of the base snapshot and must read back exactly as written
+        // (this is what catches a transposed column binding in one of the hand-written INSERT / UPDATE / SELECT lists)
+        {
+            dj::track_snapshot padded = b.snap;
+            if (padded.hot_cues.size() < 8) padded.hot_cues.resize(8);
+            if (padded.loops.size() < 8) padded.loops.resize(8);
+            Facts want = snap_facts(padded);
+            static const std::map<std::string, std::set<std::string>> group = {
+                {"sample_count", {"sample_count", "sample_rate", "waveform", "beatgrid", "bpm", "duration"}}, {"sample_rate", {"sample_count", "sample_rate", "waveform", "beatgrid", "bpm", "duration"}},
+                {"waveform", {"waveform"}}, {"beatgrid", {"beatgrid", "bpm"}}, {"bpm", {"bpm"}}, {"duration", {"duration"}}, {"hot_cues", {"hot_cues", "main_cue"}}, {"main_cue", {"main_cue", "hot_cues"}}};
+            std::set<std::string> skip = {"waveform"};  // derived / resampled data
+            for (auto& tf : b.touched)
+            {
+                skip.insert(tf);
+                auto g = group.find(tf);
+                if (g != group.end()) skip.insert(g->second.begin(), g->second.end());
+            }
+            if (!w.v2 && r1.beatgrid.size() >= 2) skip.insert("bpm");                                       // 1.x derives the tempo from the grid
+            if (!w.v2 && w.schema < eng::engine_schema::schema_1_15_0) skip.insert("file_bytes");            // no such column before 1.15.0
+            for (auto& kv : want)
+            {
+                if (skip.count(kv.first)) continue;
+                if (f1[kv.first] != kv.second)
+                {
+                    ok = false;
+                    viol("base_field_not_preserved:" + kv.first, "field " + kv.first + " (not deviated, ordinary value) was written as " + trunc(kv.second, 80) + " but reads back as " + trunc(f1[kv.first], 80));
+                }
+            }
+        }
         // (b) fixed point: writing the read-back again changes nothing
         target.update(r1);
         dj::track_snapshot r2 = target.snapshot();
